@@ -175,6 +175,13 @@ func GenConfig(seed uint64, opt core.Options) *Config {
 	pick("HYSTERESIS_QUOTIENT", 4, 8)
 	pick("HYSTERESIS_DOWNWARD_MULTIPLIER", 1, 2)
 	pick("HYSTERESIS_UPWARD_MULTIPLIER", 5, 7)
+	pick("SECONDS_PER_SLOT", 12, 12, 6, 3)
+	switch rng.Intn(5) { // balance granularity and ceiling
+	case 0:
+		c.Knobs["MAX_EFFECTIVE_BALANCE"], c.Knobs["EFFECTIVE_BALANCE_INCREMENT"] = 48_000_000_000, 2_000_000_000
+	case 1:
+		c.Knobs["MAX_EFFECTIVE_BALANCE"], c.Knobs["EFFECTIVE_BALANCE_INCREMENT"] = 32_000_000_000, 500_000_000
+	}
 	switch opt.Params["director"] {
 	case "leak":
 		// > 1/3 of the stake is offline for the whole run: inactivity leak, drained balances, ejections
@@ -299,6 +306,12 @@ func (c *Config) BuildSpec() *common.Spec {
 			s.MAX_WITHDRAWALS_PER_PAYLOAD = view.Uint64View(v)
 		case "MAX_VALIDATORS_PER_WITHDRAWALS_SWEEP":
 			s.MAX_VALIDATORS_PER_WITHDRAWALS_SWEEP = view.Uint64View(v)
+		case "SECONDS_PER_SLOT":
+			s.SECONDS_PER_SLOT = common.Timestamp(v)
+		case "MAX_EFFECTIVE_BALANCE":
+			s.MAX_EFFECTIVE_BALANCE = common.Gwei(v)
+		case "EFFECTIVE_BALANCE_INCREMENT":
+			s.EFFECTIVE_BALANCE_INCREMENT = common.Gwei(v)
 		case "BASE_REWARD_FACTOR":
 			s.BASE_REWARD_FACTOR = view.Uint64View(v)
 		case "PROPOSER_REWARD_QUOTIENT":
@@ -1223,7 +1236,8 @@ func (w *World) newDeposit() {
 	case kind < 5: // new validator, valid proof of possession
 		ki := w.cfg.Validators + (n % 24)
 		dd.Pubkey = w.keys.pub[ki]
-		dd.Amount = common.Gwei([]uint64{32, 32, 31, 16, 33, 1}[r.Intn(6)] * 1_000_000_000)
+		max := uint64(w.spec.MAX_EFFECTIVE_BALANCE)
+		dd.Amount = common.Gwei([]uint64{max, max, max - 1_000_000_000, max / 2, max + 1_000_000_000, 1_000_000_000}[r.Intn(6)])
 		dd.WithdrawalCredentials[0] = common.ETH1_ADDRESS_WITHDRAWAL_PREFIX
 		dd.WithdrawalCredentials[31] = byte(ki)
 		dom := computeDomain(common.DOMAIN_DEPOSIT, w.spec.GENESIS_FORK_VERSION, common.Root{})
@@ -1235,7 +1249,7 @@ func (w *World) newDeposit() {
 	case kind < 9: // new pubkey with an invalid proof of possession: skipped by the spec
 		ki := w.cfg.Validators + 20 + (n % 4)
 		dd.Pubkey = w.keys.pub[ki]
-		dd.Amount = 32_000_000_000
+		dd.Amount = w.spec.MAX_EFFECTIVE_BALANCE
 		dd.Signature = w.keys.sign(ki, fnvRoot("bad-pop", uint64(n)))
 	default: // undecodable pubkey bytes
 		dd.Pubkey[0] = 0xff
